@@ -18,14 +18,19 @@ from .loader import clone, norm, parents, exec_order
 
 
 class Seq:
-    def __init__(self, base, elt, rev=False, index_of=None):
+    def __init__(self, base, elt, rev=False, index_of=None, order=None):
         self.base = base          # text of the base collection
         self.elt = elt            # ast expression over the element symbol
         self.rev = rev
         self.index_of = index_of  # set for range(len(X)): the elements are the indices of X (a Seq)
+        self.order = order        # None: the base's own order; "sorted:<elt text>": the elements sorted (one list, walked as a whole)
 
     def flipped(self):
-        return Seq(self.base, self.elt, not self.rev, self.index_of)
+        return Seq(self.base, self.elt, not self.rev, self.index_of, self.order)
+
+    def same_walk(self, other):
+        """both walk the same collection in the same order and direction"""
+        return (self.base, self.rev, self.order) == (other.base, other.rev, other.order)
 
 
 def _sym(kind, depth):
@@ -100,6 +105,12 @@ def seq_of(expr, at, depth, _rec=0):
         if f == "reversed" and len(expr.args) == 1:
             s = seq_of(expr.args[0], at, depth, _rec + 1)
             return s.flipped() if s is not None else None
+        if f == "sorted" and len(expr.args) == 1:
+            # a permutation of the same elements; two walks agree only when they walk the same sorted list
+            s = seq_of(expr.args[0], at, depth, _rec + 1)
+            if s is not None and s.index_of is None and s.order is None and not s.rev:
+                return Seq(s.base, s.elt, False, None, "sorted:%s" % norm(s.elt))
+            return None
         n_ = expr.args[0] if (f == "range" and len(expr.args) == 1) else None
         if isinstance(n_, ast.Name):
             n_ = _single_def(n_.id, scopes) or n_          # size = len(xs); range(size)
@@ -134,7 +145,7 @@ def seq_of(expr, at, depth, _rec=0):
         env = {}
         _bind(g.target, inner.elt, env)
         elt = _IndexSub(env, {t: (inner, depth) for t in env} if inner.index_of is not None else {}, at, depth).visit(clone(expr.elt))
-        return Seq(inner.base, elt, inner.rev)
+        return Seq(inner.base, elt, inner.rev, None, inner.order)
     if isinstance(expr, (ast.Attribute, ast.Subscript)):
         return Seq(norm(expr), _sym("e", depth))
     return None
